@@ -35,18 +35,18 @@ func init() {
 	runner.Register(&runner.Check{
 		ID:    "C07",
 		Level: "exploration",
-		Rule: fmt.Sprintf("case = fixed prelude (engine On, both bodies buffered, both limits %d bytes ProcessPartial, two data sets, three companion rules) with ONE hole filled by: "+
+		Rule: fmt.Sprintf("case = fixed prelude (engine On, both bodies buffered, both limits %d bytes ProcessPartial, two data sets, the JSON/XML body-processor selection rules of coraza.conf-recommended, three companion rules) with ONE hole filled by: "+
 			"every directive of directivesmap.gen.go + Include + 2 unknown (%d names) x {%d generic argument shapes: missing, On, abc, -1, 0, `1 2 \"X\"`, quoted, unterminated quote, 70 kB token, binary bytes, ...; per-directive valid and near-valid values} at two positions (before / after the rules); "+
 			"every registered action + 2 unknown spellings (%d) x {%d value shapes + per-action values} and x `%%{VAR.k}` for every variable name, each in 3 (quick) / 7 (thorough) rule templates (SecAction in all 5 phases, per-match with capture, chain link; thorough also denying chain starter, SecDefaultAction, SecRuleUpdateActionById, response phase with multiMatch); 9 macro positions x every variable name; "+
 			"every ctl option + 2 unknown (%d) x {%d generic values + per-option values: valid, negative, zero, huge, garbage} x phases 1-4 (thorough 1-5 and per-match), every variable name as ctl target; "+
 			"every registered operator + 2 unknown (%d) x %d argument shapes x {plain, negated} on 10 targets in phases 2 and 4 (@rbl and @inspectFile only constructed, never evaluated), the @rx arguments again with SecRxPreFilter On; "+
 			"every variable name + 4 other spellings x %d selector forms as rule target in all 5 phases (thorough also as SecRuleUpdateTargetById/ByTag argument); every transformation + 3 other spellings (%d), alone, doubled, quoted (thorough: all ordered pairs); "+
-			"%d roles x %d roles x %d strings for one string used twice (in one WAF; in two WAFs alive in one process); a sample of all classes with debug level 9 and the audit engine On (4 formats x 2 writers x 3 part sets x 5 disruptive actions x 5 phases); "+
+			"%d roles x %d roles x %d strings for one string used twice (in one WAF; in two WAFs alive in one process); %d other engine contexts (DetectionOnly, Reject limit actions, body access Off, 16-byte in-memory limit with kept uploads, engine Off, tiny argument / JSON-depth limits) x a sample of the action and ctl classes; a sample of all classes with debug level 9 and the audit engine On (4 formats x 2 writers x 3 part sets x 5 disruptive actions x 5 phases); "+
 			"thorough only: every text obtained from a hole text by deleting or duplicating one delimiter, one of %q. "+
 			"Every accepted configuration serves the battery of call sequences (quick %d, thorough %d: canonical GET/POST, bodies of limit-1/limit/limit+1 bytes, 0/1-byte writes, binary bytes in every field, multipart with file, JSON, XML, reversed order, bodies before headers, response only, io.Reader bodies, repeated calls, one-byte chunks, no calls; Close twice after each). "+
 			"distinct_nontrivial = distinct accepted configurations (the ones that reached the transaction battery)",
 			bodyLimit, len(directiveNames), len(genericArgs), len(actionNames), len(genericValues), len(ctlOptions), len(ctlGeneric), len(operatorNames), len(operatorArgs),
-			len(selectorForms("V")), len(transformationNames), len(roles), len(roles), len(roleStrings), delimiters, len(quickBattery), len(battery)),
+			len(selectorForms("V")), len(transformationNames), len(roles), len(roles), len(roleStrings), len(engineContexts), delimiters, len(quickBattery), len(battery)),
 		Assumptions: []string{
 			"a transaction is not used after Close (Close twice is exercised); one goroutine per transaction",
 			"operators that leave the process (@rbl DNS, @inspectFile exec) are constructed but never evaluated; audit writers HTTPS/Syslog are initialised but never written to over the network",
